@@ -146,8 +146,11 @@ def g_options_strategy(top, orthogonal=None):
         o["psinorm_pf"] = _round(draw(st.floats(0.85, 0.96)), 3)
         if double and draw(st.integers(0, 2)) == 0:
             o["psinorm_sol_inner"] = _round(draw(st.floats(1.04, 1.12)), 3)
-        if double and draw(st.integers(0, 2)) == 0:
+        if draw(st.integers(0, 2)) == 0:
+            # a separate limit for the upper (and, in single nulls, sometimes the lower) private flux region
             o["psinorm_pf_upper"] = _round(draw(st.floats(0.85, 0.96)), 3)
+            if not double and draw(st.booleans()):
+                o["psinorm_pf_lower"] = _round(draw(st.floats(0.85, 0.96)), 3)
         o["finecontour_Nfine"] = draw(st.sampled_from([40, 50, 50, 70, 100]))
         o["target_all_poloidal_spacing_length"] = _round(draw(st.floats(0.15, 1.0)), 3)
         o["xpoint_poloidal_spacing_length"] = _round(draw(st.floats(0.03, 0.15)), 3)
